@@ -4,6 +4,7 @@ use crate::report::Ctx;
 pub mod c01;
 pub mod c03;
 pub mod c04;
+pub mod c04_lazy;
 pub mod c06;
 pub mod c06_datapath;
 pub mod c07;
